@@ -278,6 +278,14 @@ def correspondence(ctx):
 # =====================================================================================================
 # property-level oracle (independent of the Coq model)
 # =====================================================================================================
+def close_var(err, var, sc):
+    """is err^2 the variance [var] of samples of magnitude [sc]?  Conditioning-aware: a two-pass standard deviation is
+    accurate to a RELATIVE 1e-12 or so whatever |mean|/std is, apart from the second-order effect of the rounded mean
+    (about (1e-16 |mean|)^2); a one-pass sum-of-squares formula is off by about 1e-16 mean^2, i.e. by the whole variance
+    once |mean|/std reaches 1e8"""
+    return abs(Fraction(err) ** 2 - var) <= var / 10 ** 7 + (sc / 10 ** 13) ** 2
+
+
 class DesignScript:
     """offsets with exactly zero mean and identity second moments: call j of a draw returns the j-th
     sign pattern over 8 draws (row_j[n] = +1 if bit j of n is set else -1), scaled by nothing"""
@@ -318,65 +326,100 @@ def close(a, b, tol=Fraction(1, 10 ** 8), scale=Fraction(1)):
     return abs(a - b) <= tol * (abs(a) + abs(b)) + tol * scale / 1000
 
 
+HOWS = ["func", "func-swapped", "method", "method-swapped", "cov-func", "cov-func-swapped", "cov-method", "cov-method-swapped"]
+
+
+def assign_correlation(q, meas, i, j, r, how):
+    """every public way of declaring the correlation r between measurements i and j"""
+    a, b = meas[i], meas[j]
+    if how.endswith("swapped"):
+        a, b = b, a
+    if how.startswith("cov"):
+        c = r * float(a.std) * float(b.std)
+        if "func" in how:
+            q.set_covariance(a, b, c)
+        else:
+            a.set_covariance(b, c)
+    elif how.startswith("func"):
+        q.set_correlation(a, b, r)
+    else:
+        a.set_correlation(b, r)
+
+
 def check_design(case):
     """linear formula sum a_i x_i + c under the whitened design: mean and variance are exact consequences of
-    'normal with its central value and uncertainty, carrying the correlations set between them'"""
+    'normal with its central value and uncertainty, carrying the correlations set between them'.  The correlations may be
+    changed between simulations of the SAME quantity ("rounds": through the function or the method form, either argument
+    order, as a correlation or as a covariance, after reset_correlations): every simulation must follow the assignment
+    in force when it is made"""
     q = mc._q()
     k = len(case["sources"])
     script = DesignScript(k)
-    with warnings.catch_warnings(record=True) as w:
-        warnings.simplefilter("always")
-        with mc.patched_normal(script):
-            try:
-                mc.reset_globals()
-                q.set_error_method(q.ErrorMethod.MONTE_CARLO)
-                if case["size_mode"] == "global":
-                    q.set_monte_carlo_sample_size(8)
-                meas = [mc.make_measurement(s) for s in case["sources"]]
-                rho = {}
-                for i, j, num, den in case["corr"]:
-                    q.set_correlation(meas[i], meas[j], num / den)
+    coef = [fr(a) for a in case["coef"]]
+    rounds = [{"reset": False, "set": [[i, j, num, den, "func"] for i, j, num, den in case["corr"]]}] + case.get("rounds", [])
+    with mc.patched_normal(script):
+        try:
+            mc.reset_globals()
+            q.set_error_method(q.ErrorMethod.MONTE_CARLO)
+            if case["size_mode"] == "global":
+                q.set_monte_carlo_sample_size(8)
+            meas = [mc.make_measurement(s) for s in case["sources"]]
+            v = [Fraction(float(m.value)) for m in meas]
+            e = [Fraction(float(m.error)) for m in meas]
+            res = None
+            rho = {}
+            for rno, rnd in enumerate(rounds):
+                where = "" if rno == 0 else "simulation {} (after {}): ".format(
+                    rno + 1, ("reset_correlations, " if rnd.get("reset") else "") +
+                    ", ".join("{} of ({},{}) = {}/{}".format(h, i, j, n_, d_) for i, j, n_, d_, h in rnd["set"]))
+                if rnd.get("reset"):
+                    q.reset_correlations()
+                    rho = {}
+                for i, j, num, den, how in rnd["set"]:
+                    assign_correlation(q, meas, i, j, num / den, how)
                     rho[(i, j)] = rho[(j, i)] = Fraction(num, den)
-                coef = [fr(a) for a in case["coef"]]
-                res = None
-                for a, m in zip(coef, meas):
-                    term = float(a) * m
-                    res = term if res is None else res + term
-                res = res + float(fr(case["const"]))
-                if case["size_mode"] == "own":
-                    res.mc.sample_size = 8
-                try:
-                    value, error = float(res.value), float(res.error)
-                    S = res.mc.samples()
-                except Exception as e:  # noqa
-                    return "reading the result raises {}: {}".format(type(e).__name__, str(e)[:80])
-                v = [Fraction(float(m.value)) for m in meas]
-                e = [Fraction(float(m.error)) for m in meas]
-            finally:
-                mc.reset_globals()
-    msgs = [str(x.message) for x in w]
-    warned = any(m.startswith("Fail to generate a physical") for m in msgs)
-    if len(S) != 8:
-        return "{} samples for a configured size of 8".format(len(S))
-    pd = case["pd"]
-    if not pd and not warned:
-        return "correlations that are jointly not positive definite: no warning was raised"
-    if pd and warned:
-        return "positive-definite correlations: the fallback warning was raised"
-    mean = sum(a * x for a, x in zip(coef, v)) + fr(case["const"])
-    var = Fraction(0)
-    for i in range(k):
-        for j in range(k):
-            r = Fraction(1) if i == j else (rho.get((i, j), Fraction(0)) if pd else Fraction(0))
-            var += coef[i] * coef[j] * r * e[i] * e[j]
-    sc = sum(abs(a) * (abs(x) + abs(u)) for a, x, u in zip(coef, v, e)) + abs(fr(case["const"])) or Fraction(1)
-    if not close(Fraction(value), mean, scale=sc):
-        return "value {} differs from the mean {} of the draws centred at the central values".format(value, float(mean))
-    got = Fraction(error) ** 2 * 7 / 8
-    if not close(got, var, Fraction(1, 10 ** 7), sc * sc):
-        return ("offsets with identity second moments: the draws have variance {} (ddof=0) but the stated model gives a' D C D a "
-                "= {} ({})".format(float(got), float(var),
-                                   "correlations as set" if pd else "uncorrelated fallback"))
+                with warnings.catch_warnings(record=True) as w:
+                    warnings.simplefilter("always")
+                    if res is None:
+                        for a, m in zip(coef, meas):
+                            term = float(a) * m
+                            res = term if res is None else res + term
+                        res = res + float(fr(case["const"]))
+                        if case["size_mode"] == "own":
+                            res.mc.sample_size = 8
+                    else:
+                        res.recalculate()
+                    try:
+                        value, error = float(res.value), float(res.error)
+                        S = res.mc.samples()
+                    except Exception as ex:  # noqa
+                        return where + "reading the result raises {}: {}".format(type(ex).__name__, str(ex)[:80])
+                msgs = [str(x.message) for x in w]
+                warned = any(m.startswith("Fail to generate a physical") for m in msgs)
+                if len(S) != 8:
+                    return where + "{} samples for a configured size of 8".format(len(S))
+                pd = minors_pd(k, rho)
+                if not pd and not warned:
+                    return where + "correlations that are jointly not positive definite: no warning was raised"
+                if pd and warned:
+                    return where + "positive-definite correlations: the fallback warning was raised"
+                mean = sum(a * x for a, x in zip(coef, v)) + fr(case["const"])
+                var = Fraction(0)
+                for i in range(k):
+                    for j in range(k):
+                        r = Fraction(1) if i == j else (rho.get((i, j), Fraction(0)) if pd else Fraction(0))
+                        var += coef[i] * coef[j] * r * e[i] * e[j]
+                sc = sum(abs(a) * (abs(x) + abs(u)) for a, x, u in zip(coef, v, e)) + abs(fr(case["const"])) or Fraction(1)
+                if not close(Fraction(value), mean, scale=sc):
+                    return where + "value {} differs from the mean {} of the draws centred at the central values".format(
+                        value, float(mean))
+                got = Fraction(error) ** 2 * 7 / 8
+                if not close(got, var, Fraction(1, 10 ** 7), sc * sc):
+                    return where + ("offsets with identity second moments: the draws have variance {} (ddof=0) but the stated "
+                                    "model gives a' D C D a = {} ({})".format(
+                                        float(got), float(var), "correlations as set" if pd else "uncorrelated fallback"))
+        finally:
+            mc.reset_globals()
     return None
 
 
@@ -392,7 +435,22 @@ def gen_design_case(rng):
     # the covariance of the draws does not depend on the order of the sources: positions are used as creation indices
     sources, _ = mc.gen_sources(rng, k, repeated_ok=True, positive_error=True)
     equalize(rng, sources)
-    return {"sources": sources, "corr": corr_pos, "pd": minors_pd(k, rho),
+    rounds = []
+    if k >= 2 and rng.random() < 0.6:
+        for _ in range(rng.randint(1, 3)):
+            kind2, cp2 = gen_corr(rng, k)
+            if k == 3 and rng.random() < 0.3:
+                t2 = rng.choice(CANCEL3_DYADIC)
+                cp2 = [[i, j] + frac(*v_) for (i, j), v_ in zip(((0, 1), (0, 2), (1, 2)), t2) if v_[0] != 0]
+            reset = rng.random() < 0.25
+            if not reset:       # pairs that are not mentioned keep their factor: set them explicitly (possibly to another value)
+                pass
+            rounds.append({"reset": reset, "set": [c[:4] + [rng.choice(HOWS)] for c in cp2]})
+    if any(s["kind"] != "single" for s in sources) and rounds:
+        for rnd in rounds:      # covariance forms use std, which differs from the uncertainty for readings: keep to correlations
+            for c in rnd["set"]:
+                c[4] = c[4].replace("cov-", "")
+    return {"sources": sources, "corr": corr_pos, "pd": minors_pd(k, rho), "rounds": rounds,
             "coef": [fx(rng.choice([1.0, -1.0, 2.0, 0.5, -1.5, 3.0])) for _ in range(k)],
             "const": fx(rng.choice([0.0, 1.0, -2.5])), "size_mode": rng.choice(["global", "own"])}
 
@@ -468,7 +526,7 @@ def check_samerow(case):
         vo, eo = mc.num_obs(value), mc.num_obs(error)
         if vo is None or not close(fr(vo), m, scale=sc):
             return "value {} is not the mean {} of the {} finite outcomes".format(value, float(m), len(want))
-        if eo is None or not close(fr(eo) ** 2, var, Fraction(1, 10 ** 7), sc * sc):
+        if eo is None or not close_var(fr(eo), var, sc):
             return "uncertainty {} is not the sample standard deviation (ddof=1) {} of the {} finite outcomes".format(
                 error, math.sqrt(var), len(want))
     return None
@@ -675,8 +733,7 @@ def check_sizes(case):
                         m = sum(xs) / len(xs)
                         var = sum((x - m) ** 2 for x in xs) / (len(xs) - 1)
                         sc = max(abs(x) for x in xs) or Fraction(1)
-                        if not close(Fraction(value), m, scale=sc) or \
-                                not close(Fraction(error) ** 2, var, Fraction(1, 10 ** 7), sc * sc):
+                        if not close(Fraction(value), m, scale=sc) or not close_var(Fraction(error), var, sc):
                             return "step {} {}: value / uncertainty are not the mean / ddof-1 deviation of the {} draws".format(
                                 idx, st, len(S))
             finally:
@@ -717,14 +774,86 @@ def gen_sizes_case(rng, seed):
             "defs": mc.gen_defs(rng, k, allow_div=False, depth=2, require_all=False), "steps": steps}
 
 
-CHECKS = {"design": check_design, "samerow": check_samerow, "statistical": check_statistical, "sizes": check_sizes}
+def check_precision(case):
+    """large central values with tiny uncertainties (|mean| / std up to 1e10): value and uncertainty must still be the mean
+    and the ddof-1 standard deviation of the retrievable samples, to a conditioning-aware RELATIVE tolerance"""
+    q = mc._q()
+    script = mc.Script(case["seed"], "real")
+    with warnings.catch_warnings():
+        warnings.simplefilter("ignore")
+        with mc.patched_normal(script):
+            try:
+                mc.reset_globals()
+                q.set_error_method(q.ErrorMethod.MONTE_CARLO)
+                q.set_monte_carlo_sample_size(case["g"])
+                meas = [mc.make_measurement(s) for s in case["sources"]]
+                for i, j, num, den in case.get("corr", []):
+                    q.set_correlation(meas[i], meas[j], num / den)
+                objs = []
+                for d in case["defs"]:
+                    objs.append(mc.build_value(d, meas, objs))
+                res = objs[-1]
+                if case.get("range"):
+                    res.mc.set_xrange(*[float.fromhex(x) for x in case["range"]])
+                value, error = res.value, res.error
+                S = [Fraction(float(x)) for x in res.mc.samples()]
+            finally:
+                mc.reset_globals()
+    if case.get("range"):
+        lo, hi = [fr(x) for x in case["range"]]
+        S = [x for x in S if lo <= x <= hi]
+    if len(S) < 2:
+        return None
+    m = sum(S) / len(S)
+    var = sum((x - m) ** 2 for x in S) / (len(S) - 1)
+    sc = max(abs(x) for x in S) or Fraction(1)
+    vo, eo = mc.num_obs(value), mc.num_obs(error)
+    std = math.sqrt(var)
+    ratio = float(abs(m)) / std if std > 0 else float("inf")
+    if vo is None or abs(fr(vo) - m) > sc / 10 ** 13 + Fraction(std) / 10 ** 9:
+        return "value {} is not the mean {!r} of the {} retrievable samples (|mean|/std = {:.1e})".format(
+            value, float(m), len(S), ratio)
+    if eo is None or not close_var(fr(eo), var, sc):
+        return ("uncertainty {} is not the sample standard deviation {!r} (ddof=1) of the {} retrievable samples, whose mean "
+                "is {!r} (|mean|/std = {:.1e})".format(error, std, len(S), float(m), ratio))
+    return None
+
+
+def gen_precision_case(rng, seed):
+    v0 = rng.choice([1e9, 4e7, 2.0 ** 30 + 0.75, 1.0, 1e3, -2.5e8])
+    rel = rng.choice([2e-9, 1e-7, 2.5e-10, 1e-8, 1e-6])
+    e0 = abs(v0) * rel
+    src = lambda v, e: {"kind": "single", "value": fx(v), "error": fx(e)}
+    shape = rng.choice(["x", "x+y", "x-y corr", "2x", "x*c"])
+    corr = []
+    if shape == "x":
+        sources, defs = [src(v0, e0)], [["mul", ["var", 0], ["cst", fx(1.0)]]]
+    elif shape == "2x":
+        sources, defs = [src(v0, e0)], [["add", ["var", 0], ["var", 0]]]
+    elif shape == "x*c":
+        sources, defs = [src(v0, e0)], [["mul", ["cst", fx(0.5)], ["var", 0]]]
+    elif shape == "x+y":
+        sources, defs = [src(v0, e0), src(v0 / 4, e0 * 2)], [["add", ["var", 0], ["var", 1]]]
+    else:       # strongly correlated difference on top of a large offset
+        sources = [src(v0, e0), src(v0 / 2, e0)]
+        defs = [["sub", ["var", 0], ["var", 1]]]
+        corr = [[0, 1] + rng.choice([[4, 5], [24, 25], [12, 13]])]
+    case = {"seed": seed, "g": rng.choice([16, 64, 400, 2000]), "sources": sources, "defs": defs, "corr": corr}
+    if rng.random() < 0.25:
+        c = v0 if shape in ("x",) else None
+        if c is not None:
+            case["range"] = [fx(c - 1.5 * e0), fx(c + 1.0 * e0)]
+    return case
+
+
+CHECKS = {"precision": check_precision, "design": check_design, "samerow": check_samerow, "statistical": check_statistical, "sizes": check_sizes}
 
 
 def search(ctx, suspects, budget):
     t0 = time.time()
     rng = ctx.rng
     out, seen = [], set()
-    counts = {"design": 0, "samerow": 0, "statistical": 0, "sizes": 0}
+    counts = {"design": 0, "samerow": 0, "statistical": 0, "sizes": 0, "precision": 0}
 
     def report(kind, case, why):
         key = kind + ":" + why.split(" ")[0] + why[-30:] if kind != "statistical" else kind
@@ -761,6 +890,20 @@ def search(ctx, suspects, budget):
                 except Exception:  # noqa
                     pass
             report("samerow", small, check_samerow(small) or why)
+    while len(out) < 5 and counts["precision"] < ctx.n(40, 600):
+        c = gen_precision_case(rng, "p{}-{}".format(seedbase, counts["precision"]))
+        counts["precision"] += 1
+        why = check_precision(c)
+        if why:
+            small = dict(c)
+            for g_ in (16, 8, 4):
+                cand = dict(small, g=g_)
+                try:
+                    if check_precision(cand):
+                        small = cand
+                except Exception:  # noqa
+                    pass
+            report("precision", small, check_precision(small) or why)
     while len(out) < 5 and counts["sizes"] < ctx.n(90, 900):
         c = gen_sizes_case(rng, "z{}-{}".format(seedbase, counts["sizes"]))
         counts["sizes"] += 1
@@ -778,8 +921,9 @@ def search(ctx, suspects, budget):
             why = check_statistical(c)
             if why:
                 report("statistical", c, why)
-    ctx.notes.append("oracle: {} whitened-design cases, {} exact-sample cases, {} size histories, {} statistical cases "
-                     "(N = 200000, 6 sigma)".format(counts["design"], counts["samerow"], counts["sizes"], counts["statistical"]))
+    ctx.notes.append("oracle: {} whitened-design cases, {} exact-sample cases, {} size histories, {} precision cases, {} statistical "
+                     "cases (N = 200000, 6 sigma)".format(counts["design"], counts["samerow"], counts["sizes"],
+                                                          counts["precision"], counts["statistical"]))
     return out
 
 
